@@ -277,10 +277,6 @@ theorem integrate_additive_at_sample (w1 w2 v1 v2 : List ℚ) (m y a b : ℚ)
 /-! exactness for piecewise-linear data: the line through two consecutive samples, a primitive of it, and the sum over the
 segments of the primitive's increments — the exact integral of the piecewise-linear interpolant -/
 
-/-- the line through (x0, y0), (x1, y1) -/
-def lineThrough (x0 y0 x1 y1 x : ℚ) : ℚ := y0 + (y1 - y0) / (x1 - x0) * (x - x0)
-/-- a primitive of that line: `linePrim (x + h) − linePrim x = h·lineThrough x + slope·h²/2` (`linePrim_is_primitive`) -/
-def linePrim (x0 y0 x1 y1 x : ℚ) : ℚ := y0 * x + (y1 - y0) / (x1 - x0) * (x - x0) ^ 2 / 2
 
 theorem linePrim_is_primitive (x0 y0 x1 y1 x h : ℚ) :
     linePrim x0 y0 x1 y1 (x + h) - linePrim x0 y0 x1 y1 x = h * lineThrough x0 y0 x1 y1 x + (y1 - y0) / (x1 - x0) * h ^ 2 / 2 := by
@@ -440,6 +436,60 @@ theorem bin_trapz_exact_linear (s : Spectrum) (a b lo hi : ℚ) (hval : s.value 
             exact interpAt_linear a b fl fr s.wave e lo hi hs h2 hlo hhi (hedges e he).1 (hedges e he).2
           rw [this, trapzBins_linear]
 
+/-- exactness PER BIN (the clause "exact for spectra that are linear across each bin"): when the two edges of bin k lie in one
+data segment [x_i, x_{i+1}] of a well-formed spectrum — the interpolant is affine across the bin, whatever the spectrum does
+elsewhere — the trapezoid bin is the exact integral of that segment's line over the bin (increment of its primitive) -/
+theorem bin_trapz_exact_per_bin (s : Spectrum) (hwf : WF s) (sym : Bool) (fl fr : ℚ) (c bins : List ℚ)
+    (h : bin s false sym fl fr none c = .ok bins) (k i : ℕ) (e0 e1 a b ya yb : ℚ)
+    (he0 : (trapzEdges sym c)[k]? = some e0) (he1 : (trapzEdges sym c)[k + 1]? = some e1)
+    (ha : s.wave[i]? = some a) (hb : s.wave[i + 1]? = some b) (hya : s.value[i]? = some ya) (hyb : s.value[i + 1]? = some yb)
+    (h0 : a ≤ e0) (h01 : e0 ≤ e1) (h1 : e1 ≤ b) :
+    bins[k]? = some (linePrim a ya b yb e1 - linePrim a ya b yb e0) := by
+  have hab : a < b := by
+    have := List.pairwise_iff_getElem.mp hwf.1
+    obtain ⟨hi0, rfl⟩ := List.getElem?_eq_some_iff.mp ha
+    obtain ⟨hi1, rfl⟩ := List.getElem?_eq_some_iff.mp hb
+    exact this i (i + 1) hi0 hi1 (Nat.lt_succ_self i)
+  -- inside the sampled range the model's sample is the segment's line
+  have hval : ∀ e, a ≤ e → e ≤ b → interpAt s.wave s.value fl fr e = lineThrough a ya b yb e := by
+    intro e hae heb
+    unfold interpAt
+    cases hh : s.wave.head? with
+    | none => have : s.wave = [] := by simpa using hh
+              rw [this] at ha; simp at ha
+    | some lo =>
+      cases hl : s.wave.getLast? with
+      | none => have : s.wave = [] := by simpa using hl
+                rw [this] at ha; simp at ha
+      | some hi =>
+        have hlo : lo ≤ a := head_le_of_strictInc _ _ hwf.1 hh a (List.mem_of_getElem? ha)
+        have hhi : b ≤ hi := le_getLast_of_strictInc _ _ hwf.1 hl b (List.mem_of_getElem? hb)
+        have c1 : ¬ e < lo := by linarith
+        have c2 : ¬ hi < e := by linarith
+        simp only [c1, c2, if_false]
+        exact seg_on_segment s.wave s.value e i a b ya yb hwf.1 ha hb hya hyb hae heb
+  simp only [bin, binRaw, Bool.false_eq_true, if_false, sample] at h
+  split at h
+  · cases h
+  · rename_i raw hraw
+    split at hraw
+    · cases hraw
+    · split at hraw
+      · cases hraw
+      · rename_i f hf
+        split at hf
+        · cases hf
+        · cases hf; cases hraw; cases h
+          rw [trapzBins_getElem _ _ k e0 e1 (lineThrough a ya b yb e0) (lineThrough a ya b yb e1) he0 he1
+            (by rw [List.getElem?_map, he0]; simp [hval e0 h0 (le_trans h01 h1)])
+            (by rw [List.getElem?_map, he1]; simp [hval e1 (le_trans h0 h01) h1])]
+          congr 1
+          have hd : b - a ≠ 0 := by linarith
+          simp only [Gen.trapzTerm, lineThrough, linePrim]
+          field_simp
+          ring
+
+
 /-- non-negativity of `bin` itself (trapezoid rule): a well-formed spectrum with non-negative values and non-negative
 fill, strictly increasing centres ⇒ every bin is non-negative — without power preservation, and with it (the
 normalisation integral `integrate s (min c) (max c)` and the raw sum are both non-negative) -/
@@ -490,6 +540,20 @@ theorem bin_preserve_power_sum (s : Spectrum) (sym : Bool) (fl fr : ℚ) (c raw 
     ∃ bins, bin s false sym fl fr (some none) c = .ok bins ∧ sumL bins = integrate s a b := by
   refine ⟨raw.map (· * (integrate s a b / sumL raw)), ?_, ?_⟩
   · simp [bin, hraw, binNorm, ha, hb]
+  · have hm : ∀ (l : List ℚ) (k : ℚ), (l.map (· * k)).sum = l.sum * k := by
+      intro l k; induction l with
+      | nil => simp
+      | cons x l ih => simp [ih, add_mul]
+    rw [sumL_eq_sum, hm, ← sumL_eq_sum]
+    field_simp
+
+/-- power preservation with a supplied integral `I` (the Simpson case: `I` comes from `scipy.integrate.simpson`, not
+modelled): the normalised bins of either rule sum to `I`, provided the un-normalised bins do not sum to zero -/
+theorem bin_preserve_power_sum_given (s : Spectrum) (simps sym intC : Bool) (fl fr I : ℚ) (c raw : List ℚ)
+    (hraw : binRaw s simps sym fl fr c intC = .ok raw) (h : sumL raw ≠ 0) :
+    ∃ bins, bin s simps sym fl fr (some (some I)) c intC = .ok bins ∧ sumL bins = I := by
+  refine ⟨raw.map (· * (I / sumL raw)), ?_, ?_⟩
+  · simp [bin, hraw, binNorm]
   · have hm : ∀ (l : List ℚ) (k : ℚ), (l.map (· * k)).sum = l.sum * k := by
       intro l k; induction l with
       | nil => simp
